@@ -490,7 +490,8 @@ func (d *Driver) handleGo(args []string) (quit bool) {
 		case "binc":
 			tc.binc = parseInt64(args[i+1])
 		case "depth":
-			depth := Depth(parseInt(args[i+1]))
+			// Depth is 8 bits wide, out of range values would wrap around.
+			depth := Depth(Clamp(parseInt(args[i+1]), 0, MaxPlies))
 			opts = append(opts, search.WithDepth(depth))
 		case "nodes":
 			nodes := parseInt(args[i+1])
@@ -609,7 +610,8 @@ func (d *Driver) handleGo(args []string) (quit bool) {
 
 func parseInt(value string) int {
 	result, err := strconv.Atoi(value)
-	if err != nil {
+	// on range error Atoi saturates, which is the closest to what was asked for.
+	if err != nil && !errors.Is(err, strconv.ErrRange) {
 		return 0
 	}
 	return result
